@@ -19,6 +19,10 @@ From Coq Require Import List Arith Bool Lia.
 From LMBase Require Import Res ListX.
 Import ListNotations.
 
+(* arms of the dispatching pipeline (pli/dispatch.rs) and the striping kernels *)
+Inductive arm : Type := AGeneric | ASse2 | AAvx2.
+Inductive kernel : Type := KGeneric | KAvx2.
+
 Inductive intr : Type :=
 | IUnpackLo (w : nat)        (* _mm256_unpacklo_epi<w> *)
 | IUnpackHi (w : nat)        (* _mm256_unpackhi_epi<w> *)
